@@ -2,10 +2,11 @@ CONSTANTS
   H = 4
   NWit = 2
   MaxCalls = 1
-  PrimaryPersonas = {"honest", "weak3", "lunatic3", "future3", "flip2"}
+  PrimaryPersonas = {"honest", "weak3", "lunatic3", "future3", "flip2", "weak4bad"}
   WitnessPersonas = {"honest", "weak3", "lunatic3", "future3", "silent"}
   Modes = {"skip"}
   Roots = {1, 2, 3}
+  WithUpdate = FALSE
   Nows = {125}
   Weak_SkipTrustLevel = FALSE
   Weak_AdjacentIgnoresNextVals = FALSE
@@ -15,6 +16,7 @@ CONSTANTS
   Weak_MismatchAlsoCountsAsMatch = TRUE
   Weak_NoWitnessNeeded = FALSE
   Weak_BackwardsUnbound = FALSE
+  Weak_ReplacementHashUnchecked = FALSE
 INIT Init
 NEXT Next
 INVARIANTS TrustRootOnly StoreSound WitnessConfirmed NoConfirmationFromSilence AttackReported AttackStoresNothing StoreMonotone
